@@ -12,20 +12,49 @@ from sa.props._lib_h import MiniInterp, ModelError, edge_path, self_attr
 PROPERTY = "C38"
 TELNET = "conch/telnet.py"
 M = "twisted.conch.telnet."
-TECHNIQUE = "finite evaluation of the extracted write methods and receive automaton (own interpreter)"
+TECHNIQUE = ("finite-exhaustive: the receive automaton evaluated on every (state, byte) pair, the writers on every byte value, each after a domain argument checked on "
+             "the code; structural: who writes the parse state, state/branch table agreement, state kept on the instance, writeSequence routed through write and "
+             "iterated once, RFC 854 constants; second layer (bounded): corpus of wires under segmentations against an RFC 854 reference decoder, writer probes")
+RULE_KINDS = {
+    "constants/": "structural",
+    "writer/single-bytes": "finite-exhaustive",
+    "writer/": "bounded",
+    "writeSequence/through-write": "structural",
+    "writeSequence/iterable-consumed-once": "structural",
+    "writeSequence/same-escaping-as-write": "bounded",
+    "subnegotiation/single-bytes": "finite-exhaustive",
+    "subnegotiation/": "bounded",
+    "reader/who-writes-state": "structural",
+    "reader/state-has-branch": "structural",
+    "reader/state-on-instance": "structural",
+    "reader/transition-table": "finite-exhaustive",
+    "reader-samples/": "bounded",
+    "reader/": "bounded",
+}
 EXPLANATION = (
-    "Writer: TelnetTransport.write / writeSequence / requestNegotiation are evaluated as whole methods (MRO resolution, explicit base-class "
-    "delegation, helper functions, conditionals and named temporaries, by a whitelisted interpreter - no twisted code is run) on every single "
-    "byte, byte pairs, the empty string and strings with 0xFF / LF at the first, middle and last position; what reaches transport.write must "
-    "equal the ideal escaper (IAC doubled, LF -> CR LF, everything else untouched); writeSequence must put the same bytes on the wire as write() "
-    "of the concatenation (F38) for lists, tuples, one-shot iterators and generators, and may iterate its parameter only once unless it "
-    "materialised it first; sub-negotiations must be IAC SB about <IAC-doubled payload> IAC SE. Reader: the per-byte state machine of "
-    "Telnet.dataReceived is evaluated on an exhaustive finite corpus of CR-free application strings rich in IAC/LF/command bytes, interleaved "
-    "commands and sub-negotiations, under whole / byte-wise / every two-way segmentation, against an RFC 854 reference decoder: delivered bytes, "
-    "command events, their order and the final state must agree (an UnboundLocalError / AttributeError of the modelled code is a failed run), the "
-    "chunk-local buffer must be flushed at the end of every chunk; structurally, every local read in a state's branch must be bound earlier in "
-    "the same branch (parser state that outlives a byte lives on the instance). Also: every state string assigned has a branch, unknown states "
-    "raise, only dataReceived writes the parse state. Not decided: behaviour for application data containing CR (excluded by the statement)."
+    "Per clause, with the kind of its decider. "
+    "[application bytes are escaped on the way out] writer/single-bytes (FINITE-EXHAUSTIVE): it is first checked on the code that TelnetTransport.write and the methods "
+    "it delegates to (MRO, explicit base-class calls) pass the data to transport.write only through .replace(<one-byte constant>, <constant>) and concatenation with "
+    "data-independent values - each such step maps the string byte by byte - so the empty string and every single byte value decide all inputs; they are evaluated "
+    "(whitelisted interpreter, no twisted code is run) against IAC doubling + LF -> CR LF. If the check on the code fails (e.g. a conditional on the data) the rule "
+    "abstains with a note and only the BOUNDED probes remain: writer/iac-doubled, lf-to-crlf, other-bytes-untouched, matches-ideal-escaper (all single bytes, pairs "
+    "over a critical alphabet, 0xFF / LF at first / middle / last position). "
+    "[writeSequence escapes like write - F38, fixed] writeSequence/through-write (STRUCTURAL): the writeSequence resolved on TelnetTransport sends only through "
+    "self.write, never directly to the transport or a base-class writer; writeSequence/iterable-consumed-once (STRUCTURAL, CFG): the iterable parameter is iterated "
+    "at most once on every path unless materialised first; writeSequence/same-escaping-as-write (BOUNDED): lists, tuples, one-shot iterators and generators. "
+    "[sub-negotiation payload] subnegotiation/single-bytes (FINITE-EXHAUSTIVE, same byte-wise domain argument, every payload byte value); subnegotiation/iac-doubled, "
+    "framing (BOUNDED probes). "
+    "[receiver decodes what the sender encodes, under every segmentation] reader/transition-table (FINITE-EXHAUSTIVE): checked on the code that dataReceived is one loop "
+    "over the bytes of the chunk whose only memory between bytes is on the instance (state, command, commands) and that no local carries state (reader/state-on-instance, "
+    "STRUCTURAL: every local read in a state's branch is bound earlier in the same branch) - so behaviour on every stream and every segmentation is the composition of "
+    "(state, byte) steps; every one of the 6 x 256 pairs that RFC 854 specifies is evaluated from prefixes that set every register value, with a closing sequence that "
+    "makes the registers observable, against the reference decoder. reader/who-writes-state (only dataReceived and the private helpers only it calls write the state), "
+    "reader/state-has-branch (every state assigned has a branch; table agreement) - STRUCTURAL. BOUNDED witnesses: reader/round-trip and reader/flush-at-chunk-end "
+    "(exhaustive finite corpus of CR-free strings rich in IAC / LF / command bytes, interleaved commands and sub-negotiations, whole / byte-wise / every two-way "
+    "split), reader/delivery-unchanged, reader/unknown-state-raises. "
+    "[constants] constants/rfc854 - STRUCTURAL. "
+    "Bounded evidence only: none of the claimed clauses when the domain arguments hold; the sub-negotiation buffer is assumed to be treated uniformly in its content "
+    "(sampled with 0 / 1 / 3 bytes). Not decided: application data containing CR (excluded by the statement)."
 )
 ASSUMPTIONS = [
     "the receive automaton's only cross-chunk state is self.state / self.command / self.commands (checked: chunk-local buffer is flushed)",
@@ -112,6 +141,80 @@ def eval_method(mod, lookup_cls, dyn_cls, name, args, consts, sinks, used, depth
         raise AnalysisError("C38: method evaluation too deep")
     used.add(f"{owner.name}.{name}")
     return _WInterp(f, mod, dyn_cls, consts, sinks, used).call(*args)
+
+
+def bytewise_chain(mod, cls, mname, C, seen=None):
+    """None when method ``mname`` (resolved on ``cls``) hands its data parameter to the transport only through
+    ``.replace(<1-byte constant>, <constant>)``, concatenation with values that do not depend on it, single-assignment locals and
+    delegation to methods of the same kind - then the bytes written are  prefix + concat(h(byte) for byte in data) + suffix  and the
+    single bytes decide every input.  Otherwise the text of the construct that breaks the argument."""
+    seen = seen if seen is not None else set()
+    r = mro_lookup(mod, cls, mname)
+    if r is None or not isinstance(r[1], ast.FunctionDef):
+        return f"{mname} not resolvable"
+    f = r[1]
+    if id(f) in seen:
+        return f"{mname} is recursive"
+    seen.add(id(f))
+    if not f.args.args:
+        return f"{mname} has no parameters"
+    carrying = {f.args.args[-1].arg}
+
+    def const1(e):
+        try:
+            v = const_eval(e, dict(C))
+        except NotConst:
+            return None
+        return v if isinstance(v, bytes) else None
+
+    def carries(e):
+        return any(isinstance(x, ast.Name) and x.id in carrying for x in ast.walk(e))
+
+    def dexpr(e):
+        if isinstance(e, ast.Name):
+            return None if e.id in carrying else f"`{e.id}`"
+        if isinstance(e, ast.Call) and isinstance(e.func, ast.Attribute) and e.func.attr == "replace" and len(e.args) == 2 and not e.keywords:
+            pat = const1(e.args[0])
+            if pat is None or len(pat) != 1 or const1(e.args[1]) is None:
+                return f"`{src(e)[:50]}` (pattern is not a one-byte constant)"
+            return dexpr(e.func.value)
+        if isinstance(e, ast.BinOp) and isinstance(e.op, ast.Add):
+            parts = [x for x in (e.left, e.right) if carries(x)]
+            if len(parts) != 1:
+                return f"`{src(e)[:50]}`"
+            return dexpr(parts[0])
+        return f"`{src(e)[:50]}`"
+    for st in f.body:
+        if isinstance(st, ast.Expr) and isinstance(st.value, ast.Constant):
+            continue
+        if isinstance(st, ast.Assign) and len(st.targets) == 1 and isinstance(st.targets[0], ast.Name):
+            if carries(st.value):
+                bad = dexpr(st.value)
+                if bad:
+                    return bad
+                carrying.add(st.targets[0].id)
+            elif st.targets[0].id in carrying:
+                return f"`{src(st)[:50]}`"
+            continue
+        if isinstance(st, ast.Expr) and isinstance(st.value, ast.Call) and not st.value.keywords:
+            c = st.value
+            fn = src(c.func)
+            args = list(c.args)
+            if fn == "self.transport.write" and len(args) == 1:
+                bad = dexpr(args[0])
+            elif fn.startswith("self.") and fn.count(".") == 1 and len(args) == 1:
+                bad = dexpr(args[0]) or bytewise_chain(mod, cls, fn[5:], C, seen)
+            elif isinstance(c.func, ast.Attribute) and isinstance(c.func.value, ast.Name) and len(args) == 2 and src(args[0]) == "self" \
+                    and any(k.name == c.func.value.id for k in mod.classes()):
+                bad = dexpr(args[1]) or bytewise_chain(mod, next(k for k in mod.classes() if k.name == c.func.value.id), c.func.attr, C, seen)
+            else:
+                bad = f"`{src(st)[:50]}`"
+            if bad:
+                return bad
+            continue
+        return f"`{src(st)[:50]}` ({type(st).__name__})"
+    return None
+
 
 
 def ideal(data: bytes) -> bytes:
@@ -360,6 +463,17 @@ def check(ctx):
                   f"write({mism[0] if mism else b''!r}) -> {out[mism[0]] if mism else b''!r} differs from IAC-doubling + LF->CRLF ({ideal(mism[0]) if mism else b''!r})",
                   detail=f"{len(probes)} inputs")
         ctx.floor("writer/matches-ideal-escaper", len(probes), 300, "probe inputs")
+        why = bytewise_chain(mod, tt, "write", C)
+        if why is None:
+            worst = [d for d in [b""] + singles if out[d] != ideal(d)]
+            ctx.check(not worst, "writer/single-bytes", qw + " | <every byte value>",
+                      f"write({worst[0] if worst else b''!r}) -> {out[worst[0]] if worst else b''!r}, expected {ideal(worst[0]) if worst else b''!r}",
+                      detail="Domain argument (checked on the code): write() and the methods it delegates to pass the data to transport.write only through "
+                             ".replace(<one-byte constant>, <constant>), concatenation with data-independent values and plain locals; each such step maps the string "
+                             "byte by byte, so the wire is prefix + concat(h(b) for b in data) + suffix and the empty string plus all 255 single bytes (CR is excluded by "
+                             "the property statement) decide every input")
+        else:
+            ctx.note(f"writer/single-bytes: domain argument not established ({why} is not a byte-wise step); clause left to writer/matches-ideal-escaper (bounded)")
     with ctx.section('writer/writeSequence'):
         r = mro_lookup(mod, tt, "writeSequence")
         ctx.need(r is not None and isinstance(r[1], ast.FunctionDef), "writeSequence resolvable on TelnetTransport")
@@ -385,6 +499,20 @@ def check(ctx):
                   f"writeSequence({bad[0] if bad else []!r}) given as a {bad[2] if bad else ''} puts {bad[1] if bad else b''!r} on the wire; write() of the concatenation would send "
                   f"{ideal(b''.join(bad[0])) if bad else b''!r} (IAC doubled, LF -> CR LF): the sequence bypasses the escaping or gains/loses bytes",
                   detail=f"{n_ws} evaluations over lists, tuples, one-shot iterators and generators")
+        # structurally: everything the resolved writeSequence sends goes through self.write (the escaping method); a direct call of the
+        # underlying transport or of a base-class writer bypasses the escaping
+        from sa.props._lib_h import abstain
+        with abstain(ctx, "writeSequence/through-write", "writeSequence/same-escaping-as-write (bounded)"):
+            calls_ = [c for c in ast.walk(r[1]) if isinstance(c, ast.Call) and isinstance(c.func, ast.Attribute)
+                      and not (isinstance(c.func.value, (ast.Constant,)) or c.func.attr in ("join", "append", "extend"))]
+            sends = [c for c in calls_ if src(c.func).startswith("self.transport.") or (isinstance(c.func.value, ast.Name) and any(k.name == c.func.value.id for k in mod.classes()))]
+            via = [c for c in calls_ if src(c.func) == "self.write"]
+            other = [c for c in calls_ if c not in sends and c not in via]
+            ctx.need(not other and (sends or via), f"writeSequence: only self.write / transport calls ({[src(c.func) for c in other][:3]})")
+            gws = ctx.cfg(r[1])
+            ctx.need(not any(gws.edge_guards(n_) for c in sends for n_ in gws.ids_of(c)), "writeSequence: a direct transport call under a condition (fast path) is not decided here")
+            ctx.check(not sends, "writeSequence/through-write", qs, f"writeSequence hands the sequence to {src(sends[0].func) if sends else ''} without passing through "
+                      "TelnetTransport.write: IAC bytes are not doubled and LF is not translated (the peer reads application bytes as telnet commands)")
         # structurally: the iterable parameter is consumed at most once on any path unless it was materialised first
         wsf = r[1]
         g = ctx.cfg(wsf)
@@ -440,6 +568,21 @@ def check(ctx):
                 want = IACB + C["SB"] + about + payload.replace(IACB, IACB * 2) + IACB + C["SE"]
                 if got != want and badn is None:
                     badn = (payload, got, want)
+        why = bytewise_chain(mod, tt, "requestNegotiation", C)
+        if why is None:
+            worst = None
+            for v in [b""] + [bytes((x,)) for x in range(256)]:
+                sinks = []
+                eval_method(mod, tt, tt, "requestNegotiation", [b"\x1f", v], C, sinks, set())
+                want = IACB + C["SB"] + b"\x1f" + v.replace(IACB, IACB * 2) + IACB + C["SE"]
+                if b"".join(sinks) != want and worst is None:
+                    worst = (v, b"".join(sinks), want)
+            ctx.check(worst is None, "subnegotiation/single-bytes", qn + " | <every payload byte value>",
+                      f"payload {worst[0] if worst else b''!r} is sent as {worst[1] if worst else b''!r}, expected {worst[2] if worst else b''!r}",
+                      detail="Domain argument (checked on the code): the payload reaches the transport only through .replace(<one-byte constant>, <constant>) and "
+                             "concatenation with payload-independent values, so the wire is prefix + concat(h(b)) + suffix; the empty payload and all 256 single bytes decide")
+        else:
+            ctx.note(f"subnegotiation/single-bytes: domain argument not established ({why} is not a byte-wise step); clause left to subnegotiation/iac-doubled (bounded)")
         framed = badn is None or (badn[1].startswith(IACB + C["SB"]) and badn[1].endswith(IACB + C["SE"]))
         ctx.check(badn is None or not framed, "subnegotiation/iac-doubled", qn,
                   f"sub-negotiation payload {badn[0] if badn else b''!r} is sent as {badn[1] if badn else b''!r}, expected {badn[2] if badn else b''!r}: an unescaped 0xFF 0xF0 "
@@ -581,6 +724,69 @@ def check(ctx):
             ctx.ok("reader/flush-at-chunk-end", qd + " | <end of chunk>")
         ctx.floor("reader/round-trip", n_wires, 900, "wires")
 
+    with ctx.section('reader/transition-table'):
+        ctx.need(_ok_rd, 'anchors of reader (section skipped)')
+        # domain argument: a per-byte automaton whose memory is self.state plus a few registers on the instance
+        loops_t = [st for st in dr.body if isinstance(st, ast.For)]
+        per_byte = len(loops_t) == 1 and isinstance(loops_t[0].iter, ast.Call) and src(loops_t[0].iter.func) == "iterbytes" and not any(
+            isinstance(x, (ast.While,)) or (isinstance(x, ast.For) and x is not loops_t[0]) for x in ast.walk(dr))
+        regs = set()
+        for name in parser:
+            for cls_k, f_k in allm.get(name, []):
+                regs |= {t.attr for st in ast.walk(f_k) if isinstance(st, (ast.Assign, ast.AugAssign)) for t in (st.targets if isinstance(st, ast.Assign) else [st.target])
+                         if isinstance(t, ast.Attribute) and isinstance(t.value, ast.Name) and t.value.id == "self"}
+        carried = [f_.construct for f_ in ctx.findings if f_.rule == "reader/state-on-instance"]
+        why_t = None if per_byte else "dataReceived is not a single loop over iterbytes(data)"
+        why_t = why_t or (None if regs <= {"state", "command", "commands"} else f"unexpected parser registers {sorted(regs - {'state', 'command', 'commands'})}")
+        why_t = why_t or (None if not carried else "a local carries parser state from one byte to the next")
+        opt_ = [C[k] for k in ("WILL", "WONT", "DO", "DONT")]
+        prefixes = {"data": [b"", b"x"], "escaped": [IACB, b"x" + IACB], "command": [IACB + o for o in opt_] + [b"x" + IACB + opt_[0]],
+                    "newline": [CRB, b"x" + CRB], "subnegotiation": [IACB + C["SB"], IACB + C["SB"] + b"\x1f", b"x" + IACB + C["SB"] + b"\x1fab"],
+                    "subnegotiation-escaped": [IACB + C["SB"] + IACB, IACB + C["SB"] + b"\x1fa" + IACB]}
+        closing = {"data": b"z", "escaped": IACB + b"z", "command": b"\x01z", "newline": LFB + b"z", "subnegotiation": IACB + C["SE"] + b"z", "subnegotiation-escaped": C["SE"] + b"z"}
+        rdt = Reader(mod, tel, dr, C, default.value)
+        n_pairs = n_skip = n_eval = 0
+        bad_t = None
+        for st_name, pres in prefixes.items():
+            for v in range(256):
+                b_ = bytes((v,))
+                nxt = reference_step(st_name, b_, C)
+                if nxt == "?" or reference(pres[0] + b_, C) is None:
+                    n_skip += 1         # RFC 854 leaves this pair unspecified (unknown command byte, CR followed by something else)
+                    continue
+                n_pairs += 1
+                for pre in (pres if ctx.tier == "thorough" else [x for x in pres if not x.startswith(b"x")][:4]):
+                    wire = pre + b_ + closing[nxt]
+                    want = reference(wire, C)
+                    if want is None:
+                        continue
+                    cuts = [[wire], [wire[:len(pre)], wire[len(pre):]], [wire[:len(pre) + 1], wire[len(pre) + 1:]], [wire[i:i + 1] for i in range(len(wire))]]
+                    for chunks in (cuts if ctx.tier == "thorough" else cuts[:2]):
+                        chunks = [c_ for c_ in chunks if c_]
+                        n_eval += 1
+                        rdt.reset()
+                        err = None
+                        try:
+                            for ch in chunks:
+                                rdt.feed(ch)
+                        except ModelRaise as e:
+                            err = str(e)
+                        got = coalesce(rdt.events + ([("app", rdt.unflushed)] if rdt.unflushed and err is None else []))
+                        if (err is not None or got != want[0] or rdt.state != want[1]) and bad_t is None:
+                            bad_t = (st_name, b_, wire, chunks, got, rdt.state, err, want)
+        rule_t = "reader/transition-table" if why_t is None else "reader-samples/transition-table"
+        if why_t is not None:
+            ctx.note(f"reader/transition-table: domain argument not established ({why_t}); the same (state, byte) runs are reported as bounded samples")
+        ctx.check(bad_t is None, rule_t, qd + (f" | state {bad_t[0]!r} x {byte_name(bad_t[1], C)}" if bad_t else " | <every state x every byte>"),
+                  (f"in state {bad_t[0]!r} the byte {bad_t[1]!r} is mis-handled: wire {bad_t[2]!r} delivered as {bad_t[3]!r} decodes to {bad_t[4]!r} / state {bad_t[5]!r}"
+                   f"{' / raises ' + bad_t[6] if bad_t[6] else ''}; RFC 854 reference: {bad_t[7][0]!r} / {bad_t[7][1]!r}") if bad_t else "",
+                  detail=f"{n_pairs} (state, byte) pairs of 6 x 256 ({n_skip} left unspecified by RFC 854), {n_eval} evaluations. Domain argument (checked on the code): dataReceived is "
+                         f"one loop over the bytes of the chunk, its only memory between bytes is on the instance ({sorted(regs)}; no local carries state: "
+                         "reader/state-on-instance), so its behaviour on every stream and segmentation is the composition of the (state, byte) steps; every state is "
+                         "entered through prefixes that set each register value the state can hold (all four option verbs; sub-negotiation buffer empty / 1 / 3 bytes - "
+                         "the buffer is assumed to be used uniformly in its content), followed by every byte value and a closing sequence that makes the registers observable, "
+                         "whole and cut before the byte (thorough tier: more prefixes per register value, also cut after the byte and byte-wise)")
+        ctx.extra["transition_pairs"] = n_pairs
     with ctx.section('reader/delivery-unchanged'):
         ctx.func(TELNET, "TelnetTransport.applicationDataReceived")
         badd = None
@@ -704,6 +910,21 @@ MUTANTS = [
            "    def applicationDataReceived(self, data):\n        self.protocol.dataReceived(data.replace(b\"\\0\", b\"\"))\n", expect_rule="reader/delivery-unchanged"),
     Mutant("command-arg-state-reset-late", T, "            elif self.state == \"command\":\n                self.state = \"data\"\n                command = self.command\n",
            "            elif self.state == \"command\":\n                command = self.command\n", expect_rule="reader/round-trip"),
+    # the same faults must be caught by the finite-exhaustive / structural deciders alone
+    Mutant('fx-revert-F38-writeSequence', T, '    def writeSequence(self, seq):\n        self.write(b"".join(seq))\n\n\nclass TelnetBootstrapProtocol',
+           '\n\nclass TelnetBootstrapProtocol', expect_rule='writeSequence/through-write'),
+    Mutant('fx-drop-iac-doubling', T, '        ProtocolTransportMixin.write(self, data.replace(b"\\xff", b"\\xff\\xff"))',
+           '        ProtocolTransportMixin.write(self, data)', expect_rule='writer/single-bytes'),
+    Mutant('fx-escaped-iac-not-delivered', T, '                if b == IAC:\n                    appDataBuffer.append(b)\n                    self.state = "data"\n',
+           '                if b == IAC:\n                    self.state = "data"\n', expect_rule='reader/transition-table'),
+    Mutant('fx-crlf-restored-as-crlf', T, '                if b == b"\\n":\n                    appDataBuffer.append(b"\\n")\n',
+           '                if b == b"\\n":\n                    appDataBuffer.append(b"\\r\\n")\n', expect_rule='reader/transition-table'),
+    Mutant('fx-subneg-escape-state-not-left', T, '                else:\n                    self.state = "subnegotiation"\n                    self.commands.append(b)\n',
+           '                else:\n                    self.commands.append(b)\n', expect_rule='reader/transition-table'),
+    Mutant('fx-negotiation-payload-unescaped', T, '        data = data.replace(IAC, IAC * 2)\n        self._write(IAC + SB + about + data + IAC + SE)',
+           '        self._write(IAC + SB + about + data + IAC + SE)', expect_rule='subnegotiation/single-bytes'),
+    Mutant('fx-lf-translation-dropped', T, '        self.transport.write(data.replace(b"\\n", b"\\r\\n"))',
+           '        self.transport.write(data)', expect_rule='writer/single-bytes'),
 ]
 SILENT = [
     Silent("flush-moved-into-private-helper", T, "                command = self.command\n                del self.command\n                if appDataBuffer:\n                    self.applicationDataReceived(b\"\".join(appDataBuffer))\n                    del appDataBuffer[:]\n                self.commandReceived(command, b)\n",
